@@ -34,6 +34,11 @@ type authCase struct {
 	Protected []int  `json:"protected"`
 	Denied    []int  `json:"denied"`
 	Mode      string `json:"mode"` // "post" | "pre"
+	// SplitMask > 0 (post mode only): inside a denied family only the object-type coordinates
+	// selected by the mask are denied, the others stay protected and allowed. The post-fetch
+	// authorizer is asked with the coordinate of the runtime type, so implementers of one
+	// interface field can be decided differently.
+	SplitMask int `json:"split_mask,omitempty"`
 }
 
 func allowFromEnv() map[string]bool {
@@ -63,6 +68,9 @@ var authPart = pbt.Part[authCase]{Name: "denied-fields-never-reach-client", Quic
 			if rapid.IntRange(0, 3).Draw(t, "deny") != 0 {
 				c.Denied = append(c.Denied, c.Protected[i])
 			}
+		}
+		if c.Mode == "post" && rapid.IntRange(0, 2).Draw(t, "split") == 0 {
+			c.SplitMask = rapid.IntRange(1, 62).Draw(t, "splitmask")
 		}
 		return c
 	}}
@@ -307,12 +315,37 @@ func checkAuth(c authCase, o *pbt.Rec) pbt.Verdict {
 			}
 		}
 	}
+	splitUsed := false
 	for _, d := range c.Denied {
-		for _, coord := range fams[d%len(fams)] {
+		fam := fams[d%len(fams)]
+		var objs []string
+		for _, coord := range fam {
+			if td := w.Super.Types[strings.SplitN(coord, ".", 2)[0]]; td != nil && td.Kind == ast.Object {
+				objs = append(objs, coord)
+			}
+		}
+		if c.Mode == "post" && c.SplitMask > 0 && len(objs) >= 2 {
+			n := 0
+			for i, coord := range objs {
+				if (c.SplitMask>>uint(i%6))&1 == 1 && n < len(objs)-1 {
+					deny[coord] = true
+					n++
+				}
+			}
+			if n == 0 {
+				deny[objs[0]] = true
+			}
+			splitUsed = true
+			continue
+		}
+		for _, coord := range fam {
 			if protected[coord] {
 				deny[coord] = true
 			}
 		}
+	}
+	if splitUsed {
+		o.Label("split-decision-within-family")
 	}
 	sort.Slice(fcs, func(i, j int) bool {
 		return fcs[i].TypeName+"."+fcs[i].FieldName < fcs[j].TypeName+"."+fcs[j].FieldName
